@@ -1175,21 +1175,22 @@ def check_C18(ctx):
     lines = []
     for _ in range(n):
         pool = rng.sample([2, 3, 4, 5, 6], rng.randint(2, 5))
+        if rng.random() < 0.15:
+            # a pair of whole expressions that are == but spelled differently, or unequal with equal hashes, asked for every
+            # symbolic answer one after the other, and nothing else about them anywhere in the batch: in this process the first
+            # is met first, in the reverse-order process the second
+            pe = gen.rexpr(rng, rng.randint(3, 9), pool, p_const=0.45)
+            pt_ = gen.respell(pe) if rng.random() < 0.6 else gen.hash_collision_variant(pe)
+            if pt_ is not None and sx.to_sx(pt_) != sx.to_sx(pe) and sx.var_ids(pe):
+                for w in sx.var_ids(pe)[:2]:
+                    for ee in (pe, pt_):
+                        lines += ['PEXPR %d %s' % (w, sx.to_sx(ee)), 'DEXPR %d %s' % (w, sx.to_sx(ee)), 'NORM %s' % sx.to_sx(ee)]
+                rep.stats['equal_or_colliding_pairs'] += 1
         if len(pool) >= 3 and rng.random() < 0.25:
             # two variables next to sub-trees that are == but spelled differently (1 against 1.0)
             e = gen.twins(rng, pool, rng.randint(2, 6))
             rep.stats['twin_expressions'] += 1
             lines += ['DEXPR %d %s' % (w, sx.to_sx(e)) for w in sx.var_ids(e)]
-        elif rng.random() < 0.15:
-            # a pair of whole expressions that are == but spelled differently, or unequal with equal hashes: every symbolic
-            # answer of both, in this order in this process and in the opposite order in the reverse-order process
-            e = gen.rexpr(rng, rng.randint(3, 9), pool, p_const=0.45)
-            t = gen.respell(e) if rng.random() < 0.6 else gen.hash_collision_variant(e)
-            if t is not None and sx.to_sx(t) != sx.to_sx(e) and sx.var_ids(e):
-                for w in sx.var_ids(e)[:2]:
-                    for ee in (e, t):
-                        lines += ['PEXPR %d %s' % (w, sx.to_sx(ee)), 'DEXPR %d %s' % (w, sx.to_sx(ee)), 'NORM %s' % sx.to_sx(ee)]
-                rep.stats['equal_or_colliding_pairs'] += 1
         elif rng.random() < 0.2:
             # repeated operands and contributions whose floating-point sum is order-sensitive
             e = gen.order_sensitive_sum(rng, pool)
